@@ -23,7 +23,8 @@ RULE = (
     "tuples/lists/dicts, names, constants, unary/binary/compare operators, assert and return - no loops, conditionals, "
     "comprehensions, lambdas, try/with; (2) the AST dumps of all variants are identical after masking integer literals "
     "(and digits inside string constants); (3) the base call is traced twice more with the compile cache cleared: same masked AST "
-    "(the structure must not depend on the identifiers einx draws for unnamed axes). Non-trivial: variants differ in >=2 axis lengths and the code has >=3 statements; "
+    "(the structure must not depend on the identifiers einx draws for unnamed axes); (4) a batch of generated calls (480 quick / 6400 thorough) "
+    "is compiled in three fresh interpreters with different PYTHONHASHSEED values: equal masked ASTs. Non-trivial: variants differ in >=2 axis lengths and the code has >=3 statements; "
     "distinct by canonical call."
 )
 ASSUMPTIONS = [
@@ -217,15 +218,122 @@ def evaluate(rc, stats):
 
 
 def replay_case(case):
+    if case.get("crosshash"):
+        return replay_crosshash(case)
     return evaluate(case, common.Stats())
+
+
+def replay_crosshash(case):
+    import json
+    import os
+    import shutil
+    import subprocess
+    import sys
+    import tempfile
+
+    work = tempfile.mkdtemp(prefix="einxverif_c17x_")
+    try:
+        src = os.path.join(work, "cases.json")
+        with open(src, "w") as f:
+            f.write(common.jdump([case["base"]]))
+        res = []
+        for i, hs in enumerate(case["hashseeds"]):
+            env = dict(os.environ)
+            env["PYTHONHASHSEED"] = hs
+            dst = os.path.join(work, f"out{i}.json")
+            p_ = subprocess.run([sys.executable, "-W", "ignore", "-m", "einxverif.c17_child", src, dst], env=env, cwd=common.VERIF, capture_output=True)
+            if p_.returncode != 0:
+                raise common.HarnessError(f"C17 child failed: {p_.stdout.decode()[-800:]}{p_.stderr.decode()[-800:]}")
+            res.append(json.load(open(dst))[0])
+        if all(r[0] == "ok" for r in res) and res[0][1] != res[1][1]:
+            return [Violation(f"C17|hashseed_dependent|{G.family_of(case['base']['op'])}", f"{case['base']['op']}({case['base']['desc']!r}): code structure differs between PYTHONHASHSEED={case['hashseeds'][0]} and {case['hashseeds'][1]}")]
+        return []
+    finally:
+        shutil.rmtree(work, ignore_errors=True)
 
 
 def make_strategy(tier, k):
     return c17_case(tier, k)
 
 
+def cross_hash_pass(k, n, tier, seed, known_buckets):
+    """(4) the structure must not depend on PYTHONHASHSEED either: a batch of generated calls is compiled in three fresh
+    interpreters with different hash seeds; the integer-masked ASTs must agree."""
+    import json
+    import os
+    import shutil
+    import subprocess
+    import sys
+    import tempfile
+
+    per = int((480 if tier == "quick" else 6400) * common.SCALE) // n + 1
+    cases = []
+
+    def collect(rc, stats):
+        cases.append(rc["base"])
+        return []
+
+    stats, _ = common.hyp_search(PROP, make_strategy(tier, k), collect, seed=seed * 1000 + 500 + k, max_examples=per, known_buckets=known_buckets, shrink_budget_s=1.0)
+    stats.evaluations = 0
+    work = tempfile.mkdtemp(prefix="einxverif_c17x_")
+    viols = []
+    try:
+        src = os.path.join(work, "cases.json")
+        with open(src, "w") as f:
+            f.write(common.jdump(cases))
+        seeds = ["0", str(1 + (seed * 7919 + k * 104729) % 1000003), str(1 + (seed * 15485863 + k * 32452843) % 999983)]
+        outs = []
+        procs = []
+        for i, hs in enumerate(seeds):
+            env = dict(os.environ)
+            env["PYTHONHASHSEED"] = hs
+            dst = os.path.join(work, f"out{i}.json")
+            procs.append((subprocess.Popen([sys.executable, "-W", "ignore", "-m", "einxverif.c17_child", src, dst], env=env, cwd=common.VERIF, stdout=subprocess.PIPE, stderr=subprocess.STDOUT), dst))
+        for p_, dst in procs:
+            out, _ = p_.communicate()
+            if p_.returncode != 0 or not os.path.exists(dst):
+                raise common.HarnessError(f"C17 child failed: {out.decode()[-1500:]}")
+            outs.append(json.load(open(dst)))
+        for i, base in enumerate(cases):
+            rs = [o[i] for o in outs]
+            if any(r[0] != "ok" for r in rs):
+                stats.count("crosshash:skipped_raised")
+                continue
+            stats.evaluations += 1
+            stats.count("crosshash:compared")
+            stats.nt(["crosshash", G.canon_key(base)])
+            for j in range(1, len(rs)):
+                if rs[j][1] != rs[0][1]:
+                    b = f"C17|hashseed_dependent|{G.family_of(base['op'])}"
+                    if b in known_buckets:
+                        stats.excluded[b] = stats.excluded.get(b, 0) + 1
+                        break
+                    viols.append(
+                        {
+                            "bucket": b,
+                            "message": f"{base['op']}({base['desc']!r}) backend={base.get('backend')} env={base['env']}: code structure differs between PYTHONHASHSEED={seeds[0]} and {seeds[j]}:\n--- A\n{rs[0][2]}\n--- B\n{rs[j][2]}",
+                            "case": {"crosshash": True, "base": base, "hashseeds": [seeds[0], seeds[j]]},
+                            "detail": {},
+                        }
+                    )
+                    break
+    finally:
+        shutil.rmtree(work, ignore_errors=True)
+    best = {}
+    for v in viols:
+        if v["bucket"] not in best or len(v["message"]) < len(best[v["bucket"]]["message"]):
+            best[v["bucket"]] = v
+    fr = stats.to_fragment()
+    fr["violations"] = list(best.values())
+    return fr
+
+
 def worker(k, n, tier, seed, known_buckets, extra):
-    return standard_worker(PROP, make_strategy(tier, k), evaluate, k, n, tier, seed, known_buckets, quick_examples=1500, thorough_examples=30000)
+    fr = standard_worker(PROP, make_strategy(tier, k), evaluate, k, n, tier, seed, known_buckets, quick_examples=1500, thorough_examples=30000)
+    fr2 = cross_hash_pass(k, n, tier, seed, known_buckets)
+    merged = common.merge_fragments([fr, fr2])
+    merged["nontrivial"] = list(merged["nontrivial"])
+    return merged
 
 
 def run(tier, seed, known_buckets):
